@@ -210,11 +210,7 @@ Qed.
 Lemma Inv_add_edges_from eb a s : Inv s -> Inv (st_of (add_edges_from eb a s)).
 Proof.
   intro I. destruct eb as [l|l|l|l|l]; simpl.
-  - destruct l as [|[|x xs] r].
-    + exact I.
-    + exact I.
-    + revert I. generalize ((x :: xs) :: r). intros l I. revert s I. apply loop_inv.
-      intros s' ms I'. apply Inv_bulk_auto. exact I'.
+  - revert s I. apply loop_inv. intros s' ms I'. apply Inv_bulk_auto. exact I'.
   - revert s I. apply loop_inv. intros s' [m i] I'. apply Inv_bulk_explicit. exact I'.
   - revert s I. apply loop_inv. intros s' [m ea] I'. apply Inv_bulk_auto. exact I'.
   - revert s I. apply loop_inv. intros s' [[m i] ea] I'. apply Inv_bulk_explicit. exact I'.
